@@ -506,6 +506,129 @@ func e16TypedCase(seed uint64, n int, unitary bool, emptyInit bool) Case {
 	}}
 }
 
+// e16TypedCloseCase: a typed monitor with slow callbacks is closed while a
+// callback is running and more events are queued: when Done() closes, no
+// callback may be running and none may start afterwards.  partial: the handler
+// only registers some of the callbacks (the others must simply be skipped).
+func e16TypedCloseCase(seed uint64, n int, partial string) Case {
+	id := fmt.Sprintf("E16/typed-close/%d/%d/%s", seed, n, partial)
+	return Case{ID: id, Desc: map[string]interface{}{"seed": seed, "n": n, "path": "typed", "close": "during-callback", "handler": partial}, Bubble: true, Run: func(r *Res) {
+		rng := kit.NewRng(kit.Mix(seed, uint64(n)+1691+kit.HashStr(partial)))
+		core := kit.NewCore(&kit.Plan{Seed: rng.U64(), PYield: 100})
+		srv := kit.NewPodServer(core)
+		u := smallUniverse()
+		u.mutate(rng, srv)
+		ctx, cancel := ctxWithCancel()
+		defer cancel()
+		ctl, err := pod.BuildController(ctx, kit.NewLog(core), srv)
+		if err != nil {
+			r.Inc(err.Error())
+			return
+		}
+		var mu sync.Mutex
+		var calls []hcall
+		infl := 0
+		var monDone <-chan struct{}
+		afterDone := 0
+		rec := func(kind string, p *corev1.Pod) {
+			mu.Lock()
+			infl++
+			if monDone != nil && isClosed(monDone) {
+				afterDone++
+			}
+			var o metav1.Object
+			if p != nil {
+				o = p
+			}
+			calls = append(calls, hcall{Kind: kind, Objs: []metav1.Object{o}})
+			mu.Unlock()
+			core.Sleep(time.Millisecond)
+			mu.Lock()
+			infl--
+			mu.Unlock()
+		}
+		hb := pod.BuildHandler().OnInitialize(func(ps []*corev1.Pod) { rec("init", nil) })
+		if partial != "no-create" {
+			hb = hb.OnCreate(func(p *corev1.Pod) { rec("create", p) })
+		}
+		if partial != "no-update" {
+			hb = hb.OnUpdate(func(p *corev1.Pod) { rec("update", p) })
+		}
+		if partial != "no-delete" {
+			hb = hb.OnDelete(func(p *corev1.Pod) { rec("delete", p) })
+		}
+		mon, err := pod.NewMonitor(ctl, hb.Create())
+		if err != nil {
+			r.V("C16", "monitor-create-error", "%v", err)
+			return
+		}
+		mu.Lock()
+		monDone = mon.Done()
+		mu.Unlock()
+		if !waitCh(ctl.Ready(), virtBound) {
+			r.V("C16", "never-ready", "typed controller not ready")
+			return
+		}
+		core.Barrier()
+		base := len(srv.LogCopy())
+		for i := 0; i < 30; i++ {
+			u.mutate(rng, srv)
+		}
+		running := -1
+		if partial == "all" || n%2 == 0 {
+			// close while callbacks (1ms each) are running and ~30 events are queued
+			time.Sleep(time.Duration(2+rng.Intn(8))*time.Millisecond + 500*time.Microsecond)
+			mon.Close()
+			if !waitCh(mon.Done(), virtBound) {
+				r.V("C16", "monitor-not-done", "typed monitor: Close() but Done() never closes")
+				return
+			}
+			mu.Lock()
+			running = infl
+			mu.Unlock()
+			r.Add("typed-close-during-callback-checks", 1)
+			if running > 0 {
+				r.V("C16", "callback-running-at-done", "typed monitor: Done() closed while %d callback(s) were still running", running)
+			}
+		}
+		core.Barrier()
+		mu.Lock()
+		cs := append([]hcall(nil), calls...)
+		ad := afterDone
+		mu.Unlock()
+		if ad > 0 {
+			r.V("C16", "callback-after-done", "typed monitor: %d callback(s) began after Done() was closed", ad)
+		}
+		if running < 0 {
+			// not closed: the registered kinds must all have been called, in order
+			var sent []evrec
+			for _, e := range srv.LogCopy()[base:] {
+				m := e.Obj.(*corev1.Pod)
+				typ := kcacheUpdate
+				switch e.Type {
+				case "ADDED":
+					typ = kcacheCreate
+				case "DELETED":
+					typ = kcacheDelete
+				}
+				if "no-"+string(typ) == partial {
+					continue
+				}
+				sent = append(sent, evrec{Type: typ, Key: kit.Key(m), RV: m.ResourceVersion})
+			}
+			judgeCallbacks(r, "typed monitor with handler "+partial, cs, sent, 0, core.Overruns() == 0)
+			r.Add("partial-handler-checks", 1)
+		}
+		if !within(func() { ctl.Close() }) {
+			r.V("C12", "close-hang", "typed controller Close() hung")
+			return
+		}
+		core.Barrier()
+		r.Key(id)
+		r.Sample = map[string]interface{}{"handler": partial, "callbacks": len(cs), "running_when_done_closed": running}
+	}}
+}
+
 func init() {
 	register("E16", func(tier string, seed uint64) []Case {
 		var cases []Case
@@ -528,6 +651,9 @@ func init() {
 			for i := 0; i < 4; i++ {
 				cases = append(cases, e16TypedCase(seed, rep*4+i, false, i%2 == 1))
 				cases = append(cases, e16TypedCase(seed, rep*4+i, true, false))
+			}
+			for i, pk := range []string{"all", "no-create", "no-update", "no-delete"} {
+				cases = append(cases, e16TypedCloseCase(seed, rep*4+i, pk), e16TypedCloseCase(seed, rep*4+i+1, pk))
 			}
 		}
 		return cases
